@@ -97,6 +97,8 @@ package peering
 //@   callsite m.RoutingTable.AddRoute peer-route-only-for-a-link-that-gets-registered [C16]: !has(p.links, link.peer) && !has(p.linksByLabel, link.switchLabel) && arg1.DstIP == link.peer && arg1.NextHop == link.peer
 //@ func Peering.RemoveLink
 //@   requires nonnil(link)
+//@   callsite delete#1 only-the-entry-that-holds-this-very-link [C16]: has(p.links, link.peer) && p.links[link.peer] == link
+//@   callsite delete#2 only-the-label-that-holds-this-very-link [C16]: has(p.linksByLabel, link.switchLabel) && p.linksByLabel[link.switchLabel] == link
 //@   callsite m.RoutingTable.RemoveNextHop peer-route-goes-only-with-the-registration [C16]: arg1 == link.peer && !has(p.links, arg1)
 //@ func Peering.copyLinksWithLocking
 //@   ensures copy: true
